@@ -748,6 +748,67 @@ func GenOps(e *Exec, args []string) {
 				}
 			}
 		}
+		// C05 / C08: element matrices – one list / map attribute of the root is known and holds a known, an unknown and a
+		// null element (in rotating order), every other attribute is null; against an empty and a populated prior struct
+		{
+			var cs []string
+			for k, at := range ot.AttrTypes {
+				switch at.(type) {
+				case types.ListType, types.MapType:
+					cs = append(cs, k)
+				}
+			}
+			sort.Strings(cs)
+			budget := 40 * scale
+			step := 1
+			if len(cs) > budget {
+				step = len(cs) / budget
+			}
+			for i, n := 0, 0; i < len(cs) && n < budget; i, n = i+step, n+1 {
+				at := ot.AttrTypes[cs[i]]
+				var et attr.Type
+				lt, isList := at.(types.ListType)
+				if isList {
+					et = lt.ElemType
+				} else {
+					et = at.(types.MapType).ElemType
+				}
+				kinds := [][]int{{0, 1, 2}, {1, 0}, {2, 1}, {1}}[n%4]
+				var evs []tftypes.Value
+				for _, kd := range kinds {
+					switch kd {
+					case 0:
+						evs = append(evs, GenTfValue(r, et, PlanMode{KeepObjects: true}, 2))
+					case 1:
+						evs = append(evs, tftypes.NewValue(et.TerraformType(e.ctx), tftypes.UnknownValue))
+					default:
+						evs = append(evs, tftypes.NewValue(et.TerraformType(e.ctx), nil))
+					}
+				}
+				vals := map[string]tftypes.Value{}
+				for k, a := range ot.AttrTypes {
+					vals[k] = tftypes.NewValue(a.TerraformType(e.ctx), nil)
+				}
+				if isList {
+					vals[cs[i]] = tftypes.NewValue(at.TerraformType(e.ctx), evs)
+				} else {
+					mv := map[string]tftypes.Value{}
+					for j, ev := range evs {
+						mv[keyPool[j%len(keyPool)]] = ev
+					}
+					vals[cs[i]] = tftypes.NewValue(at.TerraformType(e.ctx), mv)
+				}
+				v, err := ot.ValueFromTerraform(e.ctx, tftypes.NewValue(ot.TerraformType(e.ctx), vals))
+				if err != nil {
+					continue
+				}
+				enc := EncodeTf(exclusive(r, v, groups))
+				emit(J{"op": "copyFrom", "type": t.Name, "tf": enc, "prior": "zero", "tag": "from", "grp": "elems"})
+				emit(J{"op": "copyFrom", "type": t.Name, "tf": enc, "prior": genGo(Mode{ZeroPct: 0}), "tag": "from", "grp": "elems"})
+				emit(J{"op": "seq", "type": t.Name, "tf": enc, "obj": "zero", "tag": "echo", "grp": "elems",
+					"steps": []interface{}{J{"do": "from"}, J{"do": "to"}, J{"do": "from"}}})
+			}
+		}
 		// C06: exactly one malformation per object, walking through the sites (attributes and elements at every depth)
 		if base, ok := genPlan(PlanMode{NullPct: 3, KeepObjects: true}); ok {
 			total := 0
